@@ -41,7 +41,12 @@ type Solver struct {
 	Errors  []string
 	Trace   io.Writer
 	dead    bool
+	outF    *os.File
+	limit   time.Duration // watchdog: no answer within this time kills the process
 }
+
+// Dead reports whether the process was lost (crash, watchdog).
+func (s *Solver) Dead() bool { return s.dead }
 
 func StartSolver(kind string, timeoutMs int) (*Solver, error) {
 	var cmd *exec.Cmd
@@ -67,7 +72,10 @@ func StartSolver(kind string, timeoutMs int) (*Solver, error) {
 	if err := cmd.Start(); err != nil {
 		return nil, err
 	}
-	s := &Solver{Kind: kind, cmd: cmd, in: in, out: bufio.NewReaderSize(out, 1<<16)}
+	s := &Solver{Kind: kind, cmd: cmd, in: in, out: bufio.NewReaderSize(out, 1<<16), limit: time.Duration(timeoutMs)*time.Millisecond + 30*time.Second}
+	if f, ok := out.(*os.File); ok {
+		s.outF = f
+	}
 	if p := os.Getenv("SYMGO_TRACE"); p != "" {
 		f, _ := os.Create(p + "." + kind + "." + strconv.Itoa(cmd.Process.Pid))
 		s.Trace = f
@@ -116,9 +124,15 @@ func (s *Solver) Reset() {
 
 func (s *Solver) readLine() (string, error) {
 	for {
+		if s.outF != nil {
+			s.outF.SetReadDeadline(time.Now().Add(s.limit))
+		}
 		l, err := s.out.ReadString('\n')
 		if err != nil {
 			s.dead = true
+			if s.cmd != nil && s.cmd.Process != nil {
+				s.cmd.Process.Kill()
+			}
 			return "", err
 		}
 		l = strings.TrimSpace(l)
@@ -144,7 +158,7 @@ func (s *Solver) CheckCmd(cmd string) Result {
 	for {
 		l, err := s.readLine()
 		if err != nil {
-			s.Errors = append(s.Errors, "read: "+err.Error())
+			s.Errors = append(s.Errors, "read ("+s.Role+"): "+err.Error())
 			s.Queries[Unknown]++
 			return Unknown
 		}
@@ -187,10 +201,16 @@ func (s *Solver) sexpr(cmd string) (string, error) {
 	depth := 0
 	started := false
 	inBar := false
+	if s.outF != nil {
+		s.outF.SetReadDeadline(time.Now().Add(s.limit))
+	}
 	for !started || depth > 0 {
 		c, err := s.out.ReadByte()
 		if err != nil {
 			s.dead = true
+			if s.cmd != nil && s.cmd.Process != nil {
+				s.cmd.Process.Kill()
+			}
 			return "", err
 		}
 		text.WriteByte(c)
